@@ -200,10 +200,16 @@ def compile_closure_with_globals_capturing(
     builder = CodeBuilder()
 
     global_namespace_dict = {}
+    # names of the namespace become locals of the closure maker, so a global must not be named like any of them
+    # (functions ``foo`` and ``g_foo`` linked to one converter), like the closure itself and like another global
+    occupied_names = {*namespace, closure_name}
     for name, value in namespace.items():
         value_literal = get_literal_expr(value)
         if value_literal is None:
             global_name = f"g_{name}"
+            while global_name in occupied_names:
+                global_name = f"g_{global_name}"
+            occupied_names.add(global_name)
             global_namespace_dict[global_name] = value
             builder += f"{name} = {global_name}"
         else:
